@@ -78,6 +78,8 @@ def describe_spec(spec):
         qn = getattr(parser, '__qualname__', '')
         if qn in ('SpecableEnum.type_spec.<locals>.<lambda>', 'SpecableFlag.type_spec.<locals>.<lambda>'):
             cv = _closure_of(parser)
+            if not {'size', 'byteorder', 'cls'} <= set(cv):
+                raise Undescribed('enum spec whose parser does not use size/byteorder/cls')
             if _closure_of(serializer).get('size') != cv['size'] or _closure_of(serializer).get('byteorder') != cv['byteorder']:
                 raise Undescribed('enum spec with mismatching serializer')
             if not _enum_is_open(cv['cls']):
